@@ -37,6 +37,7 @@ type Op struct {
 }
 
 type SinkSpec struct {
+	Alias  int    `json:"alias,omitempty"`  // >0: deliveries are recorded under sink index Alias-1 (registration order != logical role)
 	Mode   string `json:"mode"`             // sync | async
 	Fault  string `json:"fault,omitempty"`  // panic | slow | reenter
 	Every  int    `json:"every,omitempty"`  // fault fires on calls n with n % Every == Phase
@@ -422,7 +423,11 @@ func (e *Env) Setup() error {
 
 func (e *Env) addSink(in *Inst, k int, sp *SinkSpec) {
 	fn := func(rows []map[string]any) {
-		d := &Delivery{Inst: in.Idx, Sink: k, Start: e.Seq(), T: e.Now(), Rows: copyRows(rows),
+		sinkID := k
+		if sp.Alias > 0 {
+			sinkID = sp.Alias - 1
+		}
+		d := &Delivery{Inst: in.Idx, Sink: sinkID, Start: e.Seq(), T: e.Now(), Rows: copyRows(rows),
 			Emits: in.EmitInv, EmitsDone: in.EmitRet}
 		if sp.Retain {
 			d.Raw = rows
